@@ -294,4 +294,14 @@ def angle_dimension(repo: Repo) -> RuleRun:
 
 angle_dimension.rule_id = "C17.ANGLE-DIMENSION"
 
-RULES = [purity, position_writers, link_algebra, affine_kinds, mirror_matrix, trig_domain, params_used, owns_geometry, angle_dimension]
+def closest_search(repo: Repo) -> RuleRun:
+    """A CurveClamp starts from the curve parameter closest to its vertex: the coarse search covers the curve's own parameter range. Same rule as C16.CLOSEST-SEARCH."""
+    from ..report import rebrand
+    from . import c16
+
+    return rebrand(c16.closest_param_search(repo), PROP, "C17.CLOSEST-SEARCH")
+
+
+closest_search.rule_id = "C17.CLOSEST-SEARCH"
+
+RULES = [purity, position_writers, link_algebra, affine_kinds, mirror_matrix, trig_domain, params_used, owns_geometry, angle_dimension, closest_search]
